@@ -1385,7 +1385,15 @@ func (m *Model) RunProgPathPairs(s *Sink, rule string) {
 // RunErrKeep: the parser's list of errors only grows at its end. The callers report the first entry, so the error
 // of the first broken construct stays the one reported: every store into a field of parser.Parser whose type is a
 // slice of *fail.Error — outside the constructor — is `field = append(field, ...)` on the same parser.
-func (m *Model) RunErrKeep(s *Sink, rule string) {
+// RunParserBuffers: the same for every other slice the parser keeps (components met, ...): parse functions call each
+// other recursively, so a slice of the parser that one of them truncates or replaces by something built from it
+// (`p.buf = chain[:0]`, a scratch buffer reused "for the next statement") is shared by the nested constructs — the
+// inner one overwrites what the outer one has collected.
+func (m *Model) RunParserBuffers(s *Sink, rule string) { m.runParserSlices(s, rule, false) }
+
+func (m *Model) RunErrKeep(s *Sink, rule string) { m.runParserSlices(s, rule, true) }
+
+func (m *Model) runParserSlices(s *Sink, rule string, errorsOnly bool) {
 	pT := m.namedType("parser", "Parser")
 	if pT == nil {
 		s.Undecided(rule, "parser.Parser", "-", "type not found")
@@ -1414,15 +1422,43 @@ func (m *Model) RunErrKeep(s *Sink, rule string) {
 				if !ok {
 					continue
 				}
-				if pn := ptrNamed(fa.X.Type()); pn == nil || !types.Identical(pn, pT) || !isErrList(st.Val.Type()) {
+				pn := ptrNamed(fa.X.Type())
+				if pn == nil || pn.Obj().Pkg() == nil || shortPkg(pn.Obj().Pkg().Path()) != "parser" {
+					continue
+				}
+				if !errorsOnly && !types.Identical(pn, pT) {
+					continue // the error list may live in a type of its own (`errorList`); other lists are the parser's
+				}
+				if _, isSlice := st.Val.Type().Underlying().(*types.Slice); !isSlice || isErrList(st.Val.Type()) != errorsOnly {
 					continue
 				}
 				if _, fresh := fa.X.(*ssa.Alloc); fresh {
-					continue // the parser under construction
+					continue // the parser (or its list) under construction
+				}
+				if _, isC := st.Val.(*ssa.Slice); isC && errorsOnly {
+					if al, isAl := st.Val.(*ssa.Slice).X.(*ssa.Alloc); isAl && len(variadicElems(st.Val)) == 0 && al != nil && strings.HasPrefix(fn.Name(), "new") {
+						continue // a constructor that returns the list by value
+					}
 				}
 				n++
 				key := fmt.Sprintf("%s|the parser's error list only grows at its end", fnKey(fn))
+				if !errorsOnly {
+					key = fmt.Sprintf("%s|the parser's list %s only grows at its end", fnKey(fn), fieldName(fa.X.Type(), fa.Field))
+				}
 				good := false
+				if !errorsOnly {
+					// a fresh list is fine too
+					switch x := st.Val.(type) {
+					case *ssa.Const:
+						good = x.IsNil()
+					case *ssa.MakeSlice:
+						good = true
+					case *ssa.Slice:
+						if _, fresh := x.X.(*ssa.Alloc); fresh {
+							good = true
+						}
+					}
+				}
 				if c, isC := st.Val.(*ssa.Call); isC {
 					if bi, isB := c.Call.Value.(*ssa.Builtin); isB && bi.Name() == "append" && len(c.Call.Args) >= 1 {
 						if ld, isLd := c.Call.Args[0].(*ssa.UnOp); isLd && ld.Op == token.MUL {
@@ -1434,6 +1470,9 @@ func (m *Model) RunErrKeep(s *Sink, rule string) {
 				}
 				if good {
 					s.OK(rule, key, m.InstrPos(st), "append(p.%s, ...) stored back", fieldName(fa.X.Type(), fa.Field))
+				} else if !errorsOnly {
+					bad++
+					s.Violation(rule, key, m.InstrPos(st), "%s stores %s into the parser's field %s: parse functions call each other recursively, so a list of the parser that is truncated or rebuilt from a local slice (a scratch buffer kept \"for the next statement\") is shared with the constructs nested in the current one — an inner @if overwrites the branches its enclosing @if has collected", fnKey(fn), valueDesc(st.Val), fieldName(fa.X.Type(), fa.Field))
 				} else {
 					bad++
 					s.Violation(rule, key, m.InstrPos(st), "%s stores %s into the parser's error list: the callers report the first entry, which must stay the error of the first broken construct (its message, its line); emptying, truncating or reordering the list makes a later error — one that only follows from the first — the reported one", fnKey(fn), valueDesc(st.Val))
@@ -1441,8 +1480,11 @@ func (m *Model) RunErrKeep(s *Sink, rule string) {
 			}
 		}
 	}
-	if n == 0 {
-		s.Undecided(rule, "parser.Parser|error list", "-", "no store into an error list of the parser found")
+	if n == 0 && errorsOnly {
+		s.Note(rule, "parser.Parser|error list", "-", "no store into an error list found in package parser outside constructors")
+	}
+	if n == 0 && !errorsOnly {
+		s.OK(rule, "parser.Parser|lists of the parser", "-", "the parser keeps no list besides its errors that is written after construction")
 	}
 }
 
